@@ -15,6 +15,7 @@ class C12(SimCheck):
         "TestRequest delayed by 0..2.5 intervals (incl. just inside / outside 2 x interval); answers with a wrong or without a "
         "TestReqID; periodic peer TestRequests; unsolicited Heartbeats with an id -- for 4..6 (quick) / 6..12 (thorough) "
         "intervals plus 3 intervals of tail, with a seeded phase of the 1 s watchdog tick; zero network latency; judged on "
+        "the prelude connection ends by a peer close, a transport error (reset / pipe / timeout) or an application Logout under back-pressure; "
         "time-stamped frames, arrivals and state changes; non-trivial = the session became ACTIVE; distinct = distinct digest "
         "of the (event kind, actor) sequence"
     )
